@@ -25,3 +25,11 @@ claim("C03", "exploration", "Hypothesis-generated block trees x enumerated/drawn
 claim("C04", "exploration", "bounded-exhaustive DFS over all arrival histories (n<=8 / n<=10) + Hypothesis validated histories vs reference fork choice",
       "Every arrival history of up to 8 (quick) / 10 (thorough) blocks is enumerated (46,234 / 4,037,914 states); after every arrival head, tips, the by-height index of every stored block and forks() are compared with a reference fork choice written from the statement. Random validated histories with transactions add depth beyond the bound. Exhaustive within the bound; exploration beyond it.",
       "Trusted: reference fork choice (earliest arrival among maximal height), blocks in the exhaustive part are unvalidated reward-only blocks.", "DESIGN.md 4/C04")
+
+claim("C06", "fault_enumeration", "exhaustive single-bit flips and truncations of generated valid blocks (fault enumeration) vs decode-or-reject oracle",
+      "For each valid block drawn from generated forked chains (half of them at a saturated target so the id<target test cannot mask a missing commitment) ALL single-bit flips and ALL proper prefixes of its encoding are enumerated (about 0.9M altered strings per quick run); each must fail to decode or be rejected by full validation against the same chain with the same clock. Exhaustive per block; the blocks themselves are sampled.",
+      "Trusted: test configuration (sha256 stand-in for scrypt).", "DESIGN.md 4/C06")
+
+claim("C07", "exploration", "Hypothesis type-directed round trips + structure-aware byte edits + atheris coverage-guided fuzzing; oracle: re-encode == consumed bytes, strict reference decoder, id == sha256d",
+      "Values of every consensus type and wire message round-trip field by field; for byte strings offered to the consensus decoders (valid encodings with padded VLQs, altered tags, counts +-1, trailing data, byte edits; random bytes; ~1.5M coverage-guided atheris executions per quick run) a returning decoder implies re-encoding equals the consumed bytes, agreement with a strict reference decoder, and id = double SHA-256 of the canonical encoding; ids checked for objects decoded from bytes, read back from a BlockStore and built in memory. Found and led to the repair of C07-F1 (non-canonical VLQ) and C07-F2 (unencodable reward data).",
+      "Trusted: reference encoder/decoder in vf/refmodel.py; atheris campaigns only approximately reproducible (saved inputs are the reproducible unit).", "DESIGN.md 4/C07")
